@@ -62,6 +62,7 @@ func runChild(path string) int {
 	homedir.DisableCache = true
 	w := &world{root: req.Root, home: req.Home, bodies: req.Spec.bodySpecs(req.Root), failing: map[string]bool{}, written: map[string]string{}, ctx: c}
 	w.keyOf = func(string) string { return "" }
+	w.exts = func() *projSpec { return req.Spec }
 	pc := req.Proc
 	pc.WatchdogS = 40
 	res := w.process("child", pc, buildOpts{Label: req.Label, Args: req.Spec.args()}, nil)
